@@ -204,6 +204,12 @@ def register(reg, prog):
 
     def dr_exit(ex, s, entry, env, result):
         """leaving the loop: nothing complete left, or the connection is aborted"""
+        if s.ghost.get('$head') is None:
+            # returned before looking at the spool at all: only acceptable if nothing complete is waiting
+            S = "(old(self._spool) + data)"
+            return [('early-exit-only-when-incomplete', ex.truth(s, ex.spec_val(s, 'frame_size(%s) is None or frame_total(%s) > len(%s)' % (S, S, S), env=env, old_st=entry))),
+                    ('early-exit-keeps-all-bytes', ex.truth(s, ex.spec_val(s, 'self._spool == %s' % S, env=env, old_st=entry))),
+                    ('early-exit-no-events', z3.BoolVal(len(s.log) == 0))]
         evs = since_head(s)
         k = kinds(evs)
         g = []
@@ -280,7 +286,8 @@ def register(reg, prog):
         evs = s.log[len(snap.log):] if snap is not None else s.log
         code = lambda c: ex.truth(s, ex.spec_val(s, 'msg.code == %d' % c, env=env))
         sends = [e for e in evs if e[0] == 'send']
-        g = [('csm-recorded', z3.Implies(code(225), ex.truth(s, ex.spec_val(s, 'self._remote_settings is not None', env=env)))),
+        g = [('settings-only-from-csm', z3.Implies(z3.Not(code(225)), ex.truth(s, ex.spec_val(s, 'implies(old(self._remote_settings) is None, self._remote_settings is None)', env=env, old_st=entry)))),
+             ('csm-recorded', z3.Implies(code(225), ex.truth(s, ex.spec_val(s, 'self._remote_settings is not None', env=env)))),
              ('ping-answered-once', z3.Implies(code(226), z3.BoolVal(len(sends) == 1))),
              ('only-ping-answered', z3.Implies(z3.Not(code(226)), z3.BoolVal(len(sends) == 0))),
              ('release-abort-do-not-return', z3.Not(z3.Or(code(228), code(229)))),
